@@ -33,11 +33,17 @@ def fragment():
 
 # ---- unique leaves --------------------------------------------------------------------------------
 
-def uniquify(t):
+def uniquify_literals(t):
+    return uniquify(t, fields=False)
+
+
+def uniquify(t, fields=True):
     """Every field occurrence gets its own name, every value literal a unique value."""
     n = [0]
 
     def go(x):
+        if x[0] == "id" and not fields:
+            return x
         if x[0] == "id":
             i = n[0]
             n[0] += 1
